@@ -403,6 +403,10 @@ def rule_char_escapes(prog):
                 emitted.add(v[i:i + 2])
                 i = v.find("\\", i + 2)
     esc_calls = [m_ for m_ in hir.nodes(arm["body"], "MethodCall") if m_["m"].startswith("escape_")]
+    # `{:?}` of a char applies Rust's escape_debug (\t, \r, \', \\, \u{..}), far more than the lexer's table
+    for call in hir.nodes(arm["body"], "Call"):
+        if (hir.callee(call) or "").endswith("::new_debug") and call["args"] and c.tstr(call["args"][0]["t"]).replace("&", "").strip() == "char":
+            esc_calls.append({"m": "Debug for char (`{:?}`), i.e. escape_debug"})
     out.add("Display for TokenType", "Char is printed with escapes the lexer knows", emitted <= known and not esc_calls, c.loc(arm["sp"]),
             "printer emits %s%s, lexer accepts %s: a formatted character literal must lex back to the same character"
             % (sorted(emitted), " and calls %s()" % esc_calls[0]["m"] if esc_calls else "", sorted(known)))
@@ -502,4 +506,140 @@ def rule_one_per_item(prog):
             "`%s` drops ranges: procedures that share a line with their neighbour lose their folding range" % ((bad + chain_bad)[0]["m"] if (bad or chain_bad) else ""))
     fr = [s_ for s_ in hir.nodes_deep(prog, b["body"], 2, crate=c) if s_.get("k") == "Struct" and (s_.get("adt") or "").endswith("FoldingRange")]
     out.add("features::fold::fold", "one FoldingRange literal, built per procedure", len(fr) == 1, c.loc(b["sp"]), "found %d" % len(fr))
+    return out
+
+
+# ------------------------------------------------------------------ COMMENT-LEX
+
+# What the nom character-class combinators the lexer may build a comment from do (nom 7, `complete` flavour).
+#   body combinators:   (stop set or a function computing it from the call, total?)  total = cannot fail
+#   closing combinators: the set of terminators accepted; "EOF" = end of input
+def _closure_stop_set(clo):
+    """`|c| c == 'x'` (or `'x' == c`, or matches!(c, 'x' | 'y')) -> {'x', ..}; None if not understood"""
+    clo = hir.strip(clo)
+    if clo.get("k") != "Closure" or len(clo.get("params") or []) != 1:
+        return None
+    body = hir.strip(clo["body"])
+    if body.get("k") == "Binary" and body["op"] == "==":
+        for a, b_ in ((body["l"], body["r"]), (body["r"], body["l"])):
+            if hir.path_local(hir.strip_ref(a)) and hir.lit_value(hir.strip(b_)) is not None:
+                return {hir.lit_value(hir.strip(b_))}
+    if body.get("k") == "Binary" and body["op"] == "||":
+        l = _closure_stop_set({"k": "Closure", "params": clo["params"], "body": body["l"]})
+        r = _closure_stop_set({"k": "Closure", "params": clo["params"], "body": body["r"]})
+        return (l | r) if l is not None and r is not None else None
+    return None
+
+
+def _body_class(e):
+    """-> (stop set, total) of a `consume the comment text` combinator, or None"""
+    e = hir.strip(e)
+    if e.get("k") != "Call":
+        if e.get("k") == "Path" and (hir.path_def(e) or {}).get("p", "").endswith("character::complete::not_line_ending"):
+            return {"\n", "\r"}, False      # fails on a `\r` that is not followed by `\n`
+        return None
+    cal = hir.callee(e) or ""
+    if cal.endswith("::take_till") and e["args"]:
+        s = _closure_stop_set(e["args"][0])
+        return (s, True) if s is not None else None
+    if cal.endswith("::take_till1") and e["args"]:
+        s = _closure_stop_set(e["args"][0])
+        return (s, False) if s is not None else None       # fails on an empty comment
+    if cal.endswith("::take_until") and e["args"]:
+        v = hir.lit_value(hir.strip(e["args"][0]))
+        return ({v[0]}, False) if v else None               # fails when the pattern never comes (last line)
+    if cal.endswith("::is_not") and e["args"]:
+        v = hir.lit_value(hir.strip(e["args"][0]))
+        return (set(v), False) if v else None               # fails on an empty comment
+    return None
+
+
+def _closer_set(e):
+    """set of terminators a closing combinator accepts ("EOF" for end of input), or None"""
+    e = hir.strip(e)
+    d = hir.path_def(e) if e.get("k") == "Path" else None
+    if d:
+        p = d.get("p", "")
+        if p.endswith("combinator::eof"):
+            return {"EOF"}
+        if p.endswith("character::complete::line_ending"):
+            return {"\n", "\r\n"}
+        if p.endswith("character::complete::newline"):
+            return {"\n"}
+        return None
+    if e.get("k") == "Call":
+        cal = hir.callee(e) or ""
+        if cal.endswith("::tag") and e["args"]:
+            v = hir.lit_value(hir.strip(e["args"][0]))
+            return {v} if v is not None else None
+        if cal.endswith("::char") and e["args"]:
+            v = hir.lit_value(hir.strip(e["args"][0]))
+            return {v} if v is not None else None
+        if cal.endswith("branch::alt") and e["args"]:
+            res = set()
+            for el in hir.strip(e["args"][0]).get("es", []):
+                s = _closer_set(el)
+                if s is None:
+                    return None
+                res |= s
+            return res
+        if cal.endswith("combinator::peek") or cal.endswith("combinator::opt"):
+            return None
+    return None
+
+
+def rule_comment_lex(prog):
+    """SPL lexical grammar: a comment starts with `//` and runs to the end of the line *or of the text*.  The comment
+    lexer is `delimited("//", body, closer)`: the body stops exactly at a line feed and cannot fail, the closer accepts
+    whatever the body stops at and the end of the text; a lexeme that can end at the end of the text grows when text is
+    appended, so its look-ahead is >= 1."""
+    out = Out("COMMENT-LEX")
+    c = prog.front
+    lex = None
+    for b in c.bodies:
+        if b["name"] == "lex" and "impl_trait" in b and "/tests" not in c.file_of(b["sp"]) and any(
+                x.get("k") == "Path" and x["res"].get("ctor_of") == "spl_frontend::tokens::TokenType::Comment" for x in hir.nodes(b["body"])):
+            lex = b
+    if lex is None:
+        out.missing("the Lexer impl that builds TokenType::Comment")
+        return out
+    delim = [n for n in hir.nodes_deep(prog, lex["body"], 1, crate=c) if n.get("k") == "Call" and (hir.callee(n) or "").endswith("sequence::delimited")]
+    item = "<Comment as Lexer>::lex"
+    if len(delim) != 1 or len(delim[0]["args"]) != 3:
+        # another construction (preceded/terminated/hand-written): not understood, nothing is claimed about it
+        out.add(item, "comment text runs to the end of the line", None, c.loc(lex["sp"]), "comment lexer is not delimited(open, body, close)")
+        return out
+    op, body, close = delim[0]["args"]
+    loc = c.loc(delim[0]["sp"])
+    opener = _closer_set(op)
+    out.add(item, "a comment starts with `//`", (opener == {"//"}) if opener is not None else None, loc, "opener accepts %s" % opener)
+    bc = _body_class(body)
+    cs = _closer_set(close)
+    if bc is None:
+        out.add(item, "comment text runs to the end of the line", None, loc, "body combinator not in the checker's table")
+    else:
+        stops, total = bc
+        out.add(item, "comment text runs to the end of the line", stops == {"\n"} and total, loc,
+                "the text of a comment must stop at a line feed and nowhere else, and consuming it must not fail: this combinator "
+                "stops at %s and %s" % (sorted(stops), "cannot fail" if total else "can fail (then `//` is lexed as two `/` and the rest as program text)"))
+    if cs is None:
+        out.add(item, "a comment is closed by the line feed or by the end of the text", None, loc, "closing combinator not in the checker's table")
+    else:
+        need = {"\n", "EOF"}
+        out.add(item, "a comment is closed by the line feed or by the end of the text", need <= cs, loc,
+                "closer accepts %s: %s" % (sorted(cs), "a comment in the last line of a text without final line break is not a comment "
+                                           "(valid SPL gets a syntax diagnostic)" if "EOF" not in cs else ""))
+        if bc is not None:
+            ok = all(s in cs for s in bc[0])
+            out.add(item, "the closer accepts whatever stops the comment text", ok, loc,
+                    "text stops at %s, closer accepts %s" % (sorted(bc[0]), sorted(cs)))
+    # look-ahead of Comment
+    from .rules_tables import token_tables
+    t = token_tables(prog, Out("x"))
+    if t is not None and cs is not None:
+        la = t["la"].get("Comment")
+        if "EOF" in cs:
+            out.add("TokenType::look_ahead", "a comment that may end with the text has look-ahead >= 1", la is not None and la >= 1,
+                    c.loc(t["la_body"]["sp"]), "a comment in the last line has no line break yet; text typed behind it extends the "
+                    "comment, so the token must be re-lexed when the change starts at its end (look_ahead is %s)" % la)
     return out
